@@ -12,6 +12,9 @@ the code as it stands in the working tree):
      symbolic keys (identical behaviour on hashable concrete keys).
  T4  a bytes/str literal that is the receiver of a method call (`b"".join(..)`,
      `"..".format(..)`) is wrapped so that the call can receive symbolic arguments.
+ T6  a comprehension / generator expression with a single `for` and no `if` becomes
+     VC_map(lambda target: element, iterable, kind): identical on concrete iterables, an abstract
+     mapped sequence on abstract lists.
  T5  every `for`/`while` statement is duplicated under a run-time test: when the active
      proof supplies a loop contract for (module, function, ordinal) the *cut form* runs
      (prove invariant on entry; havoc the assigned variables; assume the invariant; fork:
@@ -238,6 +241,34 @@ class Transformer(ast.NodeTransformer):
         gen = ast.GeneratorExp(elt=ast.Tuple(elts=[node.key, node.value], ctx=ast.Load()),
                                generators=node.generators)
         return ast.copy_location(_call("VC_dict", gen), node)
+
+    # -- T6 -----------------------------------------------------------------------------
+    def _comp(self, node, kind):
+        self.generic_visit(node)
+        if len(node.generators) != 1:
+            return node
+        g = node.generators[0]
+        if g.ifs or g.is_async:
+            return node
+        if isinstance(g.target, ast.Name):
+            lam = ast.Lambda(args=ast.arguments(posonlyargs=[], args=[ast.arg(arg=g.target.id)], kwonlyargs=[],
+                                                kw_defaults=[], defaults=[]), body=node.elt)
+        elif isinstance(g.target, ast.Tuple) and all(isinstance(e, ast.Name) for e in g.target.elts):
+            inner = ast.Lambda(args=ast.arguments(posonlyargs=[], args=[ast.arg(arg=e.id) for e in g.target.elts],
+                                                  kwonlyargs=[], kw_defaults=[], defaults=[]), body=node.elt)
+            lam = ast.Lambda(args=ast.arguments(posonlyargs=[], args=[ast.arg(arg="VC_x")], kwonlyargs=[],
+                                                kw_defaults=[], defaults=[]),
+                             body=ast.Call(func=inner, args=[ast.Starred(value=_name("VC_x"), ctx=ast.Load())],
+                                           keywords=[]))
+        else:
+            return node
+        return ast.copy_location(_call("VC_map", lam, g.iter, ast.Constant(kind)), node)
+
+    def visit_ListComp(self, node):
+        return self._comp(node, "list")
+
+    def visit_GeneratorExp(self, node):
+        return self._comp(node, "gen")
 
     # -- T4 -----------------------------------------------------------------------------
     def visit_Call(self, node):
@@ -555,6 +586,8 @@ class Loader:
         g["VC_dict"] = models.SDict
         g["VC_K"] = models.KRecv
         g["VC_loop"] = vc_loop
+        from . import abscoll
+        g["VC_map"] = abscoll.vc_map
         self.modules[fullname] = mod
         self.sources[fullname] = (path, hashlib.sha256(src).hexdigest(), tr.loops)
         try:
